@@ -1,7 +1,7 @@
 """Property -> obligations registry.  Floors are instance counts confirmed by hand on the pinned tree."""
 import json, os
 from .core import FLAVOURS, DIRECTED, UNDIRECTED, SYNC, PLAIN
-from . import rules_kernel as rk, dispatch as dp, rules_guard as rg, rules_edge as re_, rules_bt as rb, rules_misc as rm, rules_c16 as r16, rules_own as ro, rules_container as rc, rules_serde as rs, rules_scc as rscc
+from . import rules_kernel as rk, dispatch as dp, rules_guard as rg, rules_edge as re_, rules_bt as rb, rules_misc as rm, rules_c16 as r16, rules_own as ro, rules_container as rc, rules_serde as rs, rules_scc as rscc, rules_sib as rsib, rules_mac as rmac
 
 ALLF = ('Bfs', 'Dfs', 'Pfs', 'Order')
 HERE = os.path.dirname(os.path.abspath(__file__))
@@ -235,5 +235,31 @@ PROPS['C11'] = dict(
     decides='the composition schema and the properties of the composed searches',
     does_not_decide='Kosaraju\'s theorem; independence from hash order follows from it (any DFS forest works)',
     assumptions=STD,
+)
+
+PROPS['C14'] = dict(
+    rules=[('MAC', lambda ctx: rmac.mac(ctx))],
+    explanation='Generated probe crates invoke one macro arm each (4 macros x {empty, 4 signature forms} + the *_node!/*_connect! helpers; thorough: node counts 0-3 x edge-list shapes '
+                'absent/empty/one/two/self-loop/repeated/forward/unlisted, ~440 probes) with distinct literal keys and values and a declared result type. They are compiled through the '
+                'fact extractor against the current tree\'s metadata: MAC-type = the invocation type-checks at gdsl::F::Graph<K,N,E>; MAC-den = the expansion\'s MIR is, constant by '
+                'constant, the denotation: for each listed node in order its edge tuples pushed in listed order, then insert(Node::new(key, value|())), then one forward loop over the '
+                'collected edges whose connect(get(s), get(t), value|()) is guarded by membership of both keys with a panic naming the missing key; MAC-flav = only gdsl::F:: items.',
+    decides='that each macro arm\'s template expands, for 0..3 repetitions and each optional group present/absent, to exactly the denoted construction sequence (macro_rules! is '
+            'syntax-parametric, so conformance of the template on these shapes is the structural content of "for every invocation")',
+    does_not_decide='key expressions with side effects (evaluated more than once by the macros); runtime behaviour of the calls themselves (C01-C03, C18)',
+    assumptions=STD + ['macro_rules! substitution is parametric in the literal fragments'],
+    technique='static analysis: generated macro probes compiled with a rustc_private driver; the expansion\'s MIR is matched against the denotation (no probe is executed)',
+)
+PROPS['C15'] = dict(
+    rules=[('SIB', lambda ctx: rsib.sib(ctx)), ('FLAV', lambda ctx: rsib.flav(ctx)), ('MAC', lambda ctx: [o for o in rmac.mac(ctx, thorough=False) if o['rule'] in ('MAC-sib', 'MAC-flav', 'MAC-type')])],
+    explanation='Sibling agreement over every function, closure and trait impl common to (digraph, sync_digraph) and (ungraph, sync_ungraph): equal control-dependence event bags '
+                '(crate-local calls, collection operations, enum-variant and ADT aggregates, returned constants, arithmetic, each tagged with loop depth and the chain of branch '
+                'predicates with polarity) after the renaming Rc<->Arc, RefCell<->RwLock, flavour prefix; guard acquisition, unwrap-as-assert, `?` plumbing, clones and formatting are not '
+                'events (SIB); equal error sets and adjacency-list footprints of the node API (SIB-SEM); common trait impls have the same bounds (SIB-IMPL); every body references only its '
+                'own flavour (FLAV) and corresponding macro arms expand alike (MAC-sib). Every structural rule of the other properties also runs on the sync copies themselves.',
+    decides='that the two copies are the same program up to the pointer/cell substitution and reordering inside one control region',
+    does_not_decide='equivalence of arbitrary programs: a behaviour-preserving rewrite of only one copy that changes its event bag raises an alarm (the stated price of cross-checking '
+                    'siblings); one-sided API (listed in the evidence) is not judged',
+    assumptions=STD + ['Rc/Arc and RefCell/RwLock are observationally equivalent in single-threaded code'],
 )
 NOT_APPLICABLE = {}
